@@ -26,7 +26,7 @@ def lang_product(tier):
     """the C01 product exploration (shared by C01 and C04): cached per repo tree, harness and spec"""
     cases = L.family_cases(tier, L.TIERS_PRODUCT[tier])
     obs_path = L.observe(cases, "dfa", "lang-" + tier)
-    cpath = obs_path + ".product-%s.json" % C.spec_hash()
+    cpath = obs_path + ".product-%s.json" % C.module_hash("LangCheck", "LangCheck_C01.cfg")
     if os.path.exists(cpath):
         with open(cpath) as f:
             d = json.load(f)
@@ -679,19 +679,9 @@ IDENTITY_STEPS = ["clone", "into_owned", "display_new", "from_str", "try_from"]
 ANY_STEPS = ["any_text", "any_compiled", "any_nested"]
 
 
-def check_C19(tier):
-    t0 = time.time()
+def lifecycle_traces(picked, rnd, per_fam):
+    """runs the routes of conversions in the real code; one trace record per (expression, route)"""
     import itertools
-    rnd = random.Random(C.SEED)
-    cases0 = L.family_cases(tier)
-    obs_path = L.observe(cases0, "dfa", "lang-" + tier) if False else None
-    # only expressions that are likely to build are worth a route; the harness skips the others
-    per_fam = 300 if tier == "quick" else 3000
-    picked = []
-    for fam, _n in L.TIERS[tier]:
-        pool = [c for c in cases0 if c["fam"] == fam]
-        rnd.shuffle(pool)
-        picked += pool[:per_fam * 4]
     lines = []
     for c in picked:
         sigma = c["sigma"]
@@ -724,6 +714,23 @@ def check_C19(tier):
         count[fam_of[i]] += 1
         for rt, evs in rts:
             recs.append({"id": i, "route": rt, "events": evs})
+    return recs
+
+
+def check_C19(tier):
+    t0 = time.time()
+    import itertools
+    rnd = random.Random(C.SEED)
+    cases0 = L.family_cases(tier)
+    obs_path = L.observe(cases0, "dfa", "lang-" + tier) if False else None
+    # only expressions that are likely to build are worth a route; the harness skips the others
+    per_fam = 300 if tier == "quick" else 3000
+    picked = []
+    for fam, _n in L.TIERS[tier]:
+        pool = [c for c in cases0 if c["fam"] == fam]
+        rnd.shuffle(pool)
+        picked += pool[:per_fam * 4]
+    recs = lifecycle_traces(picked, rnd, per_fam)
     d = C.cache_dir("obs", "%s-%s" % (C.repo_hash(), C.harness_hash()))
     tpath = os.path.join(d, "lifecycle-%s.ndjson" % tier)
     L.write_ndjson(tpath, recs)
@@ -815,6 +822,13 @@ def filters_check(prop, tier):
             h2["origin"] = "model, layers reversed"
             scenarios.append(h2)
             pairs.append((h["sid"], h2["sid"]))
+    # symbolic links (read as files and followed) that a layer discards as a tree or as a file: cancelling on a link
+    # that is read as a file must not skip its siblings
+    linked = lambda s: all(s["readable"]) and any(k == "link" and lv[i] != "keep" for lv in s["layers"] for i, k in enumerate(s["kind"]))
+    for sc in sample_model_scenarios(tier, rnd, 80 if tier == "quick" else 800, W.mc_consts(4, 1, links=True, faults=True), "n4l1lf", linked):
+        h = W.from_model(sc, len(scenarios) + 1)
+        h["origin"] = "model with links"
+        scenarios.append(h)
     scenarios += library_scenarios(prop, tier, len(scenarios) + 1, rnd)
     results, yielded, tstats, ntraces = W.run_and_validate(prop, scenarios, prop.lower(), v)
     for a, b in pairs:
@@ -835,7 +849,7 @@ def filters_check(prop, tier):
         "traces_validated_against_impl": ntraces,
         "samples": samples,
         "evaluations": len(scenarios), "distinct_nontrivial": sum(1 for h in scenarios if any(l.get("verdicts") or l.get("patterns") for l in h["layers"]) or h.get("glob") is not None),
-        "rule": "model: every tree up to %d nodes x every verdict table of the layers x every sibling order (configs %s); real: %d scenarios sampled (seeded) from the TLC-enumerated initial states of the 4-node/2-layer model with at least one discard%s, plus a library of glob / negation / nested-discard scenarios; each executed on a real file system with pass-through probes in every unused slot of a 7-layer stack, its hook trace validated against Walk.tla; non-trivial = some layer discards something" % (
+        "rule": "model: every tree up to %d nodes x every verdict table of the layers x every sibling order (configs %s); real: %d scenarios sampled (seeded) from the TLC-enumerated initial states of the 4-node/2-layer model with at least one discard%s, scenarios of the 4-node model with symbolic links in which a layer discards a link, plus a library of glob / negation / nested-discard scenarios; each executed on a real file system with pass-through probes in every unused slot of a 7-layer stack, its hook trace validated against Walk.tla; non-trivial = some layer discards something" % (
             n, [name for name, _ in mc], len(scs), " and their layer-reversed twins" if prop == "C16" else ""),
         "model_runs": {name: {"states": st["distinct"], "transitions": st["generated"]} for name, st in mc},
         "trace_validation": {"states": tstats["distinct"], "traces": ntraces},
@@ -994,6 +1008,9 @@ CHECKS["C02"] = check_C02
 def negation_sound(tier, v, extra_patterns=()):
     """returns (stats, n, {pattern text: id of the known finding that makes its exhaustive part unsound})"""
     cases = L.family_cases(tier, [("core", 5), ("dots", 4)] if tier == "quick" else [("core", 6), ("dots", 5)])
+    # concatenated units: alternations and repetitions below the top level with branches of mixed exhaustiveness
+    # (patterns reporting `sometimes`, which must stay out of the exhaustive program)
+    cases += L.seq_cases(tier, len(cases) + 1)
     for p in extra_patterns:
         sigma = sorted(set(C.cps(p)) - set(C.cps("{}<>:,*?[]()!-\\$0123456789")) | {97, 98, 47, 10})
         cases.append({"id": len(cases) + 1, "kind": "glob", "fam": "walkneg", "e": C.cps(p), "sigma": sigma})
